@@ -18,7 +18,10 @@
 (*                  having arrived by flow `via`                           *)
 (*   st = "sub"   : the parent token parked in sub-process `at` while      *)
 (*                  activation occ of that scope runs                      *)
-(*   st = "listen": waiting at catch event `at` (occ = matching state id)  *)
+(*   st = "arriving": at catch event `at`, visit announced, not yet listening*)
+(*   st = "listen": listening at catch event `at`                          *)
+(*   st = "cand"  : alternative of an event-based gateway whose event was  *)
+(*                  caught, waiting for the gateway's determination        *)
 (*   st = "err"   : left at gateway `at` after a no-flow error             *)
 (*   st = "errp"  : at task `at`, answered with an error that the engine   *)
 (*                  has not reported yet (mode, mn, pl hold the answer)    *)
@@ -34,7 +37,8 @@ Tok(at, st, occ, via, tag, inst) ==
    mode |-> "",      \* pending error answer: err | skip | exit | retry
    mn |-> 0,         \* retry count given with the pending error answer
    pl |-> <<>>,      \* payload of the pending error answer
-   cands |-> {}]     \* payloads of concurrently issued first answers
+   cands |-> {},     \* payloads of concurrently issued first answers
+   race |-> 0]       \* event-based gateway activation the token competes in (0: none)
 
 BagOf(S)      == SetToBag(S)
 Toks(s)       == BagToSet(s.tok)
@@ -42,6 +46,7 @@ AddToks(B, S) == B (+) SetToBag(S)
 DelTok(B, t)  == B (-) SetToBag({t})
 
 GatewayIds(i) == NodesOfKind(i, "xor") \cup NodesOfKind(i, "or")
+CatchIds(i)   == NodesOfKind(i, "catch") \cup NodesOfKind(i, "boundary")
 
 InitState(i) ==
   [p       |-> i,
@@ -51,6 +56,13 @@ InitState(i) ==
    ended   |-> [id \in {e \in NodesOfKind(i, "end") : Node(i, e).scope = ""} |-> 0],
    errs    |-> [id \in GatewayIds(i) |-> 0],
    nact    |-> 0,
+   \* events: per catch / boundary node the deliveries it has not processed
+   \* yet, and its multiple-event matching state (chains of matched definitions)
+   inbox   |-> [id \in CatchIds(i) |-> <<>>],
+   sat     |-> [id \in CatchIds(i) |-> <<>>],
+   ndel    |-> 0,
+   lstn    |-> [id \in CatchIds(i) |-> 0],   \* "listening" announcements so far
+   intr    |-> {},        \* <<task, occ>> requests interrupted by a boundary event
    nkill   |-> 0,         \* tokens stopped by an exit answer / exhausted retries
    started |-> FALSE,
    ceased  |-> FALSE]
@@ -60,7 +72,8 @@ Started(s) ==
   [s EXCEPT !.started = TRUE,
             !.tok = AddToks(@, {Tok(id, "in", 0, "", <<>>, <<>>) : id \in StartsOf(s.p, "")})]
 
-Lab(ev, node, occ) == [ev |-> ev, node |-> node, occ |-> occ]
+LabA(ev, node, occ, arg) == [ev |-> ev, node |-> node, occ |-> occ, arg |-> arg]
+Lab(ev, node, occ) == LabA(ev, node, occ, <<>>)
 Tau == Lab("tau", "", 0)
 Mv(lab, s) == [lab |-> lab, s |-> s]
 
@@ -119,6 +132,18 @@ ArriveMove(s, t) ==
                            !.tok = AddToks(rest,
                                {Tok(n.id, "sub", k, "", t.tag, t.inst)} \cup
                                {Tok(st, "in", 0, "", <<>>, Append(t.inst, k)) : st \in StartsOf(i, n.id)})])
+    [] n.kind = "catch" ->
+         \* the engine announces the visit before the token starts listening;
+         \* deliveries in flight at that moment race with the arrival
+         Mv(Lab("visit", n.id, 0),
+            [s EXCEPT !.tok = AddToks(rest, {[t EXCEPT !.at = n.id, !.st = "arriving"]}),
+                      !.inbox[n.id] = [k \in DOMAIN @ |-> IF @[k].done THEN @[k] ELSE [@[k] EXCEPT !.racy = TRUE]]])
+    [] n.kind = "evgw" ->
+         \* one competing token per alternative
+         LET k == s.nact + 1 IN
+         Mv(Tau, [s EXCEPT !.nact = k,
+                           !.tok = AddToks(rest,
+                              {[Tok(n.out[j], "flow", 0, n.id, t.tag, t.inst) EXCEPT !.race = k] : j \in DOMAIN n.out})])
     [] OTHER -> Mv(Lab("unsupported", n.id, 0), s)
 
 ArriveMoves(s) == {ArriveMove(s, t) : t \in {u \in Toks(s) : u.st = "flow"}}
@@ -218,6 +243,132 @@ SubExitMoves(s) ==
     : t \in {u \in Toks(s) : /\ u.st = "sub"
                              /\ \A v \in Toks(s) : u.occ \notin SeqRange(v.inst)} }
 
+(* ------------------------------ events ---------------------------------- *)
+(* An event handed to the instance is offered to every catch event (and, via *)
+(* the host activity, to every boundary event).  Each node works off its     *)
+(* deliveries in order; a delivery is OBSERVED if something is listening at   *)
+(* the node when it is worked off, otherwise it is dropped without effect.    *)
+(* Entry: [k, ref, id, done, racy, after]                                     *)
+(*   done  - the ConsumeEvent call has returned                               *)
+(*   racy  - the delivery overlapped a token's arrival at the node: the       *)
+(*           engine may legitimately see it either way                        *)
+(*   after - ids of deliveries that were complete when this one was issued    *)
+(*           (must be worked off first; concurrent deliveries are unordered)  *)
+Listeners(s, c) ==
+  IF Node(s.p, c).kind = "boundary"
+  THEN {t \in Toks(s) : t.at = Node(s.p, c).attached /\ t.st = "req"}
+  ELSE {t \in Toks(s) : t.at = c /\ t.st = "listen"}
+Arriving(s, c) == {t \in Toks(s) : t.at = c /\ t.st = "arriving"}
+
+Deliver(s, k, ref) ==
+  LET id == s.ndel + 1 IN
+  [s EXCEPT !.ndel = id,
+            !.inbox = [c \in DOMAIN @ |->
+               \* a boundary event is offered the event only while its host waits
+               IF Node(s.p, c).kind = "boundary" /\ Listeners(s, c) = {} THEN @[c]
+               ELSE Append(@[c], [k |-> k, ref |-> ref, id |-> id, done |-> FALSE,
+                                  racy |-> Arriving(s, c) # {},
+                                  after |-> {@[c][j].id : j \in {j \in DOMAIN @[c] : @[c][j].done}}])]]
+
+\* the oldest unfinished delivery of that event has returned
+Delivered(s, k, ref) ==
+  LET ids  == UNION {{s.inbox[c][j].id : j \in {j \in DOMAIN s.inbox[c] :
+                        ~s.inbox[c][j].done /\ s.inbox[c][j].k = k /\ s.inbox[c][j].ref = ref}} : c \in DOMAIN s.inbox}
+  IN  IF ids = {} THEN s
+      ELSE LET id == Min(ids) IN
+           [s EXCEPT !.inbox = [c \in DOMAIN @ |->
+              [j \in DOMAIN @[c] |-> IF @[c][j].id = id THEN [@[c][j] EXCEPT !.done = TRUE] ELSE @[c][j]]]]
+
+\* positions of node c's deliveries that may be worked off next
+Processable(s, c) ==
+  {j \in DOMAIN s.inbox[c] :
+     \A i \in DOMAIN s.inbox[c] : s.inbox[c][i].id \notin s.inbox[c][j].after}
+
+
+\* index of the first event definition of node n the event matches (0: none)
+DefIndex(n, x) ==
+  LET M == {i \in DOMAIN n.evs : n.evs[i].k = x.k /\ n.evs[i].ref = x.ref}
+  IN  IF M = {} THEN 0 ELSE Min(M)
+
+(* Matching state of a (parallel-)multiple catch event: a transcription of   *)
+(* the chain algorithm that Satisfier.tla verifies against the counting      *)
+(* properties of C14.  Returns <<matched, chains'>>.                         *)
+Satisfy(n, chains, x) ==
+  LET i == DefIndex(n, x)
+      N == Len(n.evs)
+  IN  IF i = 0 THEN <<FALSE, chains>>
+      ELSE IF ~n.parallel \/ N = 1 THEN <<TRUE, chains>>
+      ELSE LET open == {j \in DOMAIN chains : i \notin chains[j]}
+           IN  IF open = {}
+               THEN <<FALSE, Append(chains, {i})>>
+               ELSE LET j  == Min(open)
+                        cj == chains[j] \cup {i}
+                    IN  IF cj = 1..N
+                        THEN \* the completed chain is replaced by the last one
+                             <<TRUE, [m \in 1..(Len(chains) - 1) |-> IF m = j THEN chains[Len(chains)] ELSE chains[m]]>>
+                        ELSE <<FALSE, [chains EXCEPT ![j] = cj]>>
+
+\* the effect of node c catching its event: listeners continue
+Caught(s, c) ==
+  LET n == Node(s.p, c) IN
+  IF n.kind = "boundary"
+  THEN LET hosts == Listeners(s, c)
+           h == CHOOSE t \in hosts : TRUE
+           exc == Tok(c, "in", 0, "", h.tag, h.inst)
+       IN  IF n.intr
+           THEN \* interrupting: the exception flow replaces the normal flow;
+                \* an answer to the interrupted request has no effect any more
+                [s EXCEPT !.tok = AddToks(DelTok(@, h), {exc}),
+                          !.intr = @ \cup {<<h.at, h.occ>>}]
+           ELSE [s EXCEPT !.tok = AddToks(@, {exc})]
+  ELSE LET L == Listeners(s, c)
+           rel(t) == IF t.race = 0 THEN [t EXCEPT !.st = "in"] ELSE [t EXCEPT !.st = "cand"]
+       IN  [s EXCEPT !.tok = [u \in (DOMAIN @ \ L) \cup {rel(t) : t \in L} |->
+                                 IF u \in DOMAIN @ \ L THEN @[u]
+                                 ELSE @[CHOOSE t \in L : rel(t) = u]]]
+
+\* working off delivery j of node c while something listens: observed
+ObserveMove(s, c, j) ==
+  LET n  == Node(s.p, c)
+      x  == s.inbox[c][j]
+      r  == Satisfy(n, s.sat[c], x)
+      s1 == [s EXCEPT !.inbox[c] = RemoveAt(@, j), !.sat[c] = r[2]]
+  IN  Mv(LabA("observed", c, IF x.racy THEN 1 ELSE 0, <<x.k, x.ref>>),
+         IF r[1] THEN Caught(s1, c) ELSE s1)
+
+DropMove(s, c, j) == Mv(Tau, [s EXCEPT !.inbox[c] = RemoveAt(@, j)])
+
+EventObsMoves(s) ==
+  UNION {{ObserveMove(s, c, j) : j \in Processable(s, c)} : c \in {c \in DOMAIN s.inbox : Listeners(s, c) # {}}}
+
+\* a finished delivery at a node where nothing listens or is arriving is dropped
+EventDropMust(s) ==
+  UNION {{DropMove(s, c, j) : j \in {j \in Processable(s, c) : s.inbox[c][j].done}}
+           : c \in {c \in DOMAIN s.inbox : Listeners(s, c) = {} /\ Arriving(s, c) = {}}}
+\* an unfinished or racing delivery may be dropped at any time
+EventDropMay(s) ==
+  UNION {{DropMove(s, c, j) : j \in {j \in Processable(s, c) :
+             \/ s.inbox[c][j].racy
+             \/ (Listeners(s, c) = {} /\ ~(s.inbox[c][j].done /\ Arriving(s, c) = {}))}}
+           : c \in DOMAIN s.inbox}
+
+\* an arrived token starts listening; the engine announces it unless the node
+\* is already listening
+ListenMoves(s) ==
+  { Mv(IF Listeners(s, t.at) = {} THEN Lab("listening", t.at, 0) ELSE Tau,
+       [s EXCEPT !.tok = AddToks(DelTok(@, t), {[t EXCEPT !.st = "listen"]}),
+                 !.lstn[t.at] = IF Listeners(s, t.at) = {} THEN @ + 1 ELSE @])
+    : t \in {u \in Toks(s) : u.st = "arriving"} }
+
+(* Event-based gateway: among the alternatives whose event was caught exactly *)
+(* one is determined the winner and continues; every other alternative of the *)
+(* activation is withdrawn.                                                   *)
+DetermineMoves(s) ==
+  { Mv(Lab("determination", w.via, 0),
+       [s EXCEPT !.tok = [u \in {v \in DOMAIN @ : v.race # w.race} \cup {[w EXCEPT !.st = "in", !.race = 0, !.via = ""]} |->
+                            IF u \in DOMAIN @ /\ u.race # w.race THEN @[u] ELSE 1]])
+    : w \in {u \in Toks(s) : u.st = "cand"} }
+
 (* Environment: answering a task request.  Only declared result names are    *)
 (* stored.                                                                   *)
 ReqToks(s) == {t \in Toks(s) : t.st = "req"}
@@ -276,6 +427,7 @@ CeaseMoves(s) ==
 
 Moves(s)    == LeaveMoves(s) \cup ArriveMoves(s) \cup AndMoves(s) \cup OrMoves(s)
                  \cup SubExitMoves(s) \cup CeaseMoves(s) \cup TaskErrMoves(s) \cup RereqMoves(s)
+                 \cup EventObsMoves(s) \cup EventDropMust(s) \cup ListenMoves(s) \cup DetermineMoves(s)
 TauMoves(s) == {m \in Moves(s) : m.lab.ev = "tau"}
 ObsMoves(s) == {m \in Moves(s) : m.lab.ev # "tau"}
 
@@ -283,7 +435,7 @@ RECURSIVE CloseTau(_)
 CloseTau(s) == LET ms == TauMoves(s)
                IN  IF ms = {} THEN s ELSE CloseTau((CHOOSE m \in ms : TRUE).s)
 
-MayMoves(s) == OrMayMoves(s)
+MayMoves(s) == OrMayMoves(s) \cup EventDropMay(s)
 
 RECURSIVE CloseAll(_)
 CloseAll(s) == LET ms == Moves(s)
@@ -322,7 +474,7 @@ TGSpec == TGInit /\ [][TGNext]_s /\ WF_s(TGNext)
 
 (* Properties of the game itself *)
 TypeOK == /\ s.p \in 1..NProg
-          /\ \A t \in Toks(s) : t.st \in {"flow", "in", "req", "join", "sub", "listen", "err", "errp", "rereq"}
+          /\ \A t \in Toks(s) : t.st \in {"flow", "in", "req", "join", "sub", "arriving", "listen", "cand", "err", "errp", "rereq"}
 
 \* never two unanswered requests with the same number; counters match
 RequestedOncePerToken ==
